@@ -83,6 +83,7 @@ Section Good.
 Variable c : lcfg.
 Hypothesis Hwatch : lc_watch c = Some OpEq.
 Hypothesis Hadd : lc_add_first c = true.
+Hypothesis Hper : lc_per_run c = true.
 
 Lemma do_stop_eq : forall s, do_stop s =
   if l_started s then mklst false (l_run s) (l_cancel_of s) (upd_rec (l_cancel_of s) set_done (l_runs s)) (l_wg s) (l_late s) (l_want s)
@@ -171,6 +172,7 @@ Proof.
     + destruct (r_gor x) eqn:Eg; try discriminate. injection Hs as <-. unfold LIS. lred. rewrite upd_rec_ids by auto.
       pose proof (total_alive_one r (set_gor n) _ x Hnd Ef) as T. unfold alive in T at 1 2. cbn [set_gor r_lp r_wk r_gor] in T. rewrite Eg in T.
       repeat split; auto. lia.
+  - cbn [lstep] in Hs. rewrite Hper in Hs. discriminate.
   - cbn [lstep] in Hs. destruct I as (S1 & S2 & S3 & S4). rewrite S3 in Hs. discriminate.
   - cbn [lstep] in Hs. destruct (l_wg s =? 0); [|discriminate]. injection Hs as <-. exact I.
 Qed.
@@ -309,6 +311,7 @@ Section Good2.
 Variable c : lcfg.
 Hypothesis Hwatch : lc_watch c = Some OpEq.
 Hypothesis Hadd : lc_add_first c = true.
+Hypothesis Hper : lc_per_run c = true.
 
 Lemma find_rec_ctl : forall r l x, find_rec r l = Some x -> In (r, r_done x, r_wat x) (map ctl l).
 Proof. intros r l x H. destruct (find_rec_some _ _ _ H) as [Hin E]. subst r. change (r_id x, r_done x, r_wat x) with (ctl x). apply in_map. exact Hin. Qed.
@@ -366,6 +369,7 @@ Proof.
     + destruct (r_lp x); try discriminate. injection Hs as <-. eapply lic_same; [exact I| | | | |]; lred; auto. apply ctl_upd_same. reflexivity.
     + destruct (nth i (r_wk x) WkExited); try discriminate. injection Hs as <-. eapply lic_same; [exact I| | | | |]; lred; auto. apply ctl_upd_same. reflexivity.
     + destruct (r_gor x); try discriminate. injection Hs as <-. eapply lic_same; [exact I| | | | |]; lred; auto. apply ctl_upd_same. reflexivity.
+  - cbn [lstep] in Hs. rewrite Hper in Hs. discriminate.
   - cbn [lstep] in Hs. destruct (l_late s); [discriminate|]. injection Hs as <-. eapply lic_same; [exact I| | | | |]; lred; auto.
   - cbn [lstep] in Hs. destruct (l_wg s =? 0); [|discriminate]. injection Hs as <-. exact I.
 Qed.
@@ -374,6 +378,7 @@ End Good2.
 (* ================= the C10 statements ================= *)
 Lemma code_watch : forall d, lc_watch (code_lcfg d) = Some OpEq. Proof. reflexivity. Qed.
 Lemma code_add : forall d, lc_add_first (code_lcfg d) = true. Proof. reflexivity. Qed.
+Lemma code_per : forall d, lc_per_run (code_lcfg d) = true. Proof. reflexivity. Qed.
 
 Lemma lis_init : LIS linit. Proof. unfold LIS, linit. cbn. auto. Qed.
 Lemma lic_init : LIC linit.
@@ -426,6 +431,7 @@ Proof.
     + destruct (r_lp x); try discriminate. injection H as <-. reflexivity.
     + destruct (nth i (r_wk x) WkExited); try discriminate. injection H as <-. reflexivity.
     + destruct (r_gor x); try discriminate. injection H as <-. reflexivity.
+  - cbn [lstep] in H. rewrite (code_per d) in H. discriminate.
   - cbn [lstep] in H. destruct (l_late s); [discriminate|]. injection H as <-. reflexivity.
   - cbn [lstep] in H. destruct (l_wg s =? 0); [|discriminate]. injection H as <-. reflexivity.
 Qed.
@@ -490,6 +496,7 @@ Proof.
     + destruct (r_lp x); try discriminate. injection Hs as <-. lred_in Hbad. destruct Hbad as [H|H]; [congruence|]. apply H. apply K; auto.
     + destruct (nth i (r_wk x) WkExited); try discriminate. injection Hs as <-. lred_in Hbad. destruct Hbad as [H|H]; [congruence|]. apply H. apply K; auto.
     + destruct (r_gor x); try discriminate. injection Hs as <-. lred_in Hbad. destruct Hbad as [H|H]; [congruence|]. apply H. apply K; auto.
+  - exfalso. cbn [lstep] in Hs. rewrite (code_per d) in Hs. discriminate.
   - exfalso. cbn [lstep] in Hs. destruct (l_late s); [discriminate|]. injection Hs as <-. lred_in Hbad. destruct Hbad as [H|H]; [congruence|]. apply H. exact Hcd.
   - exfalso. cbn [lstep] in Hs. destruct (l_wg s =? 0); [|discriminate]. injection Hs as <-. destruct Hbad as [H|H]; [congruence|]. apply H. exact Hcd.
 Qed.
@@ -645,3 +652,35 @@ Proof. split; [vm_compute; reflexivity|]. eexists. vm_compute. reflexivity. Qed.
 Example ex_is_started_tracks_cancel : exists s,
   lrun (code_lcfg (mkd true 0)) linit [LStart; CtxCancel 1; WatcherWake 1] = Some s /\ l_started s = false /\ l_want s = false /\ ~ wake_pending s.
 Proof. eexists. split; [vm_compute; reflexivity|]. repeat split. intros (x & H & _ & Hw). vm_compute in H. injection H as <-. discriminate. Qed.
+
+(* ---- each run hands its jobs over on its own channel (fix 4ef8ad4) ---- *)
+(* StaleTake r rw i: worker i of run rw takes the job the loop of another run r hands over; it would run
+   with run rw's context.  With the per-run channel the label is never enabled, in any state. *)
+Lemma job_runs_in_its_own_run : forall d s r rw i, lstep (code_lcfg d) s (StaleTake r rw i) = None.
+Proof. intros. cbn [lstep]. rewrite (code_per d). reflexivity. Qed.
+
+(* ... so the only way a hand-over of run r's loop is taken is ExecStart r (Some i): a worker of run r *)
+Lemma handover_taken_by_own_worker : forall d s r i s', lstep (code_lcfg d) s (ExecStart r (Some i)) = Some s' ->
+  exists x, find_rec r (l_runs s) = Some x /\ r_lp x = LpIdle /\ nth i (r_wk x) WkExited = WkIdle /\
+            l_runs s' = upd_rec r (set_wk (updw i WkExec (r_wk x))) (l_runs s).
+Proof.
+  intros d s r i s' H. cbn [lstep] in H. destruct (find_rec r (l_runs s)) as [x|] eqn:E; [|discriminate]. exists x. split; [reflexivity|].
+  destruct (r_lp x); try discriminate; destruct (pick_mode exec_modes (lc_d (code_lcfg d))) as [[]|]; try discriminate.
+  destruct (nth i (r_wk x) WkExited) eqn:En; try discriminate. injection H as <-. auto.
+Qed.
+
+(* sensitivity: with one channel for all runs (the code before 4ef8ad4) a worker of the stopped run 1, back in
+   its select, takes the job handed over by run 2's loop and runs it with run 1's cancelled context *)
+Example ex_shared_channel_stale_worker : exists s s' x,
+  lrun (shared_lcfg (mkd false 1)) linit [LStart; ExecStart 1 (Some 0); LStop; LStart; ExecEnd 1 (Some 0)] = Some s /\
+  l_started s = true /\ l_run s = 2 /\
+  lstep (shared_lcfg (mkd false 1)) s (StaleTake 2 1 0) = Some s' /\
+  find_rec 1 (l_runs s') = Some x /\ r_done x = true /\ r_wk x = [WkExec].
+Proof. eexists. eexists. eexists. split; [vm_compute; reflexivity|]. split; [reflexivity|]. split; [reflexivity|].
+  split; [vm_compute; reflexivity|]. split; [vm_compute; reflexivity|]. split; reflexivity. Qed.
+
+Example ex_per_run_channel_same_trace : exists s s',
+  lrun (code_lcfg (mkd false 1)) linit [LStart; ExecStart 1 (Some 0); LStop; LStart; ExecEnd 1 (Some 0)] = Some s /\
+  lstep (code_lcfg (mkd false 1)) s (StaleTake 2 1 0) = None /\
+  lstep (code_lcfg (mkd false 1)) s (ExecStart 2 (Some 0)) = Some s' /\ cur_done s' = Some false.
+Proof. eexists. eexists. split; [vm_compute; reflexivity|]. split; [reflexivity|]. split; [vm_compute; reflexivity|]. reflexivity. Qed.
